@@ -18,6 +18,11 @@ Decided clauses:
        function at every use (its last writer on the path is the zero fill).
   R8.2-valid needs_rehash answers 0 / 1 for an Argon2 string only if the decoded parameters passed
        argon2_validate_inputs() (inside argon2_decode_string on every success exit, or in the caller).
+  R8.6 the scrypt setting-string decoder accepts exactly the characters the encoder emits (reader's and writer's tables
+       agree): decode64_one() succeeds either through a search in the very table encode64_uint32() indexes, returning the
+       position found, or through a reverse table that - for every byte value the success path admits (interval from the
+       branch facts) - maps the byte to a position whose entry in the encoder's table is that byte. A byte outside the
+       alphabet that decodes to some digit lets a corrupted parameter field verify and be reported as up to date.
 NOT decided: Argon2 / scrypt output values, string grammar strictness.
 """
 from .. import terms as T
@@ -377,3 +382,135 @@ def run(ctx, chk):
                                          and e.args[1] == ("arg", 1) and e.args[2] == ("arg", 2) for e in p.calls()))
             chk.ob("R8.2w", fn, "wrapper returns the core's answer for the same (str, opslimit, memlimit) or -1", ok,
                    loc=fn.loc(p.end_iid), path=None if ok else p, key="R8.2w %s" % name)
+    alphabet_rule(prog, chk)
+
+
+def _table_bytes(prog, fn, g):
+    """bytes of the constant global named by term ('g', name), following one level of pointer indirection"""
+    d = prog.global_def(fn, g[1])
+    if d is None or not d[1].get("const") or "init" not in d[1]:
+        return None
+    init = d[1]["init"]
+    if init[0] == "ints":
+        return list(init[1])
+    if init[0] == "zero":
+        return [0] * d[1].get("size", 0)
+    return None
+
+
+def _eval(t, env):
+    """constant value of an index term once the character parameter is fixed (table lookup only: and / sub / casts)"""
+    k = t[0]
+    if k == "c":
+        return t[1] & ((1 << t[2]) - 1)
+    if k == "arg":
+        return env[t]
+    if k == "cast":
+        v = _eval(t[2], env)
+        if v is None:
+            return None
+        op, bits, src = t[1], t[3], t[4]
+        if op == "zext":
+            return v & ((1 << src) - 1)
+        if op == "sext":
+            v &= (1 << src) - 1
+            if v >> (src - 1):
+                v -= 1 << src
+            return v & ((1 << bits) - 1)
+        if op == "trunc":
+            return v & ((1 << bits) - 1)
+        return None
+    if k == "bin":
+        a, b = _eval(t[2], env), _eval(t[3], env)
+        if a is None or b is None:
+            return None
+        bits = t[4]
+        m = (1 << bits) - 1
+        op = t[1]
+        r = {"add": a + b, "sub": a - b, "and": a & b, "or": a | b, "xor": a ^ b, "mul": a * b,
+             "shl": a << (b & 63), "lshr": (a & m) >> (b & 63)}.get(op)
+        return None if r is None else r & m
+    return None
+
+
+def alphabet_rule(prog, chk):
+    enc = prog.need("encode64_uint32", rule="R8.6")
+    dec = prog.need("decode64_one", unit=enc.unit, rule="R8.6")
+    tables = set()
+    for p in cm.paths(prog, enc):
+        for e in p.events:
+            if e.kind == "load" and T.root(e.addr)[0] == "g":
+                tables.add(T.root(e.addr))
+    if len(tables) != 1:
+        raise AnalysisBroken("R8.6: encode64_uint32 reads %d constant tables, expected its alphabet only" % len(tables))
+    ENC = tables.pop()
+    alpha = _table_bytes(prog, enc, ENC)
+    if alpha is None or len(alpha) < 64:
+        raise AnalysisBroken("R8.6: alphabet table %s has no constant initialiser of 64 characters" % (ENC,))
+    alpha = alpha[:64]
+    chk.ob("R8.6", enc, "the encoder's alphabet has 64 distinct non-NUL characters", len(set(alpha)) == 64 and 0 not in alpha,
+           key="R8.6 alphabet distinct")
+    n = 0
+    CH = ("arg", 1)
+    for p in cm.paths(prog, dec):
+        if p.kind != "ret" or not p.may_return_zero():
+            continue
+        n += 1
+        st = [e for e in p.events if e.kind == "store" and T.root(e.addr) == ("arg", 0)]
+        if not st:
+            chk.ob("R8.6", dec, "a successful decode stores the digit", False, loc=dec.loc(p.end_iid), path=p, key="R8.6 decode64_one no-store")
+            continue
+        val = st[-1].val
+        sub = [t for t in T.subterms(val)]
+        # form A: position found by searching the encoder's own table
+        srch = [e for e in p.calls("strchr", "memchr") if e.args and e.args[0] == ENC]
+        formA = None
+        for e in srch:
+            diff = ("bin", "sub", e.res, ENC, 64)
+            if diff in sub and p.facts.zeroness(e.res) == "NZ":
+                formA = e
+        if formA is not None:
+            chk.ob("R8.6", dec, "accepted characters are found in the encoder's table and decode to their position in it", True,
+                   loc=dec.loc(formA.iid), key="R8.6 decode64_one search")
+            continue
+        # form B: reverse table indexed by the character under a range guard
+        lds = [t for t in sub if t[0] == "load"]
+        ev = None
+        if len(lds) == 1:
+            ev = [e for e in p.events if e.kind == "load" and e.res == lds[0]]
+        if ev and T.root(ev[0].addr)[0] == "g":
+            REV = T.root(ev[0].addr)
+            rev = _table_bytes(prog, dec, REV)
+            ivs = [p.facts.interval(t) for t in (CH, ("cast", "zext", CH, 32, 8), ("cast", "zext", CH, 64, 8), ("cast", "sext", CH, 32, 8))]
+            ivs = [x for x in ivs if x is not None]
+            iv = (max(x[0] for x in ivs), min(x[1] for x in ivs)) if ivs else None
+            lin = ev[0].addr
+            if rev is not None and iv is not None and lin[0] == "gep" and len(lin[3]) == 1 and lin[3][0][1] == 1:
+                lo, hi = max(0, iv[0]), min(255, iv[1])
+                wrong = []
+                # branch facts on the looked-up value itself (`table[c] != INVALID`, `table[c] < 64`) restrict the admitted bytes
+                liv = p.facts.interval(ev[0].res)
+                for xt in (("cast", "zext", ev[0].res, 32, 8), ("cast", "zext", ev[0].res, 64, 8)):
+                    xi = p.facts.interval(xt)
+                    if xi is not None:
+                        liv = xi if liv is None else (max(liv[0], xi[0]), min(liv[1], xi[1]))
+                for c in range(lo, hi + 1):
+                    idx = _eval(lin[3][0][0], {CH: c})
+                    if idx is None:
+                        raise AnalysisBroken("R8.6: index expression of the reverse table is not a plain function of the character")
+                    idx = T.to_signed(idx, 64) + lin[2]
+                    d = rev[idx] if 0 <= idx < len(rev) else None
+                    if d is not None and liv is not None and not (liv[0] <= d <= liv[1]):
+                        continue               # this byte does not reach the success exit
+                    if d is None or d >= 64 or alpha[d] != c:
+                        wrong.append((c, d))
+                chk.ob("R8.6", dec, "every byte value the success path admits (%d..%d) is the encoder's character for the digit it decodes to"
+                       % (lo, hi), not wrong, loc=dec.loc(ev[0].iid),
+                       detail="; ".join("byte 0x%02x (%r) is accepted as digit %s but the encoder writes %r for that digit" %
+                                        (c, chr(c), d, chr(alpha[d]) if d is not None and d < 64 else "nothing") for c, d in wrong[:6]) +
+                       (" ... %d bytes in all" % len(wrong) if len(wrong) > 6 else ""),
+                       path=p if wrong else None, key="R8.6 decode64_one reverse-table")
+                continue
+        raise AnalysisBroken("R8.6: decode64_one succeeds through an idiom that is neither a search in the encoder's table nor a "
+                             "range-guarded reverse table: cannot relate the decoder's alphabet to the encoder's")
+    chk.floor("R8.6", "success paths of decode64_one", n, 1)
